@@ -128,6 +128,17 @@ func (ex *Exec) condWait(c Ptr, site token.Pos) {
 }
 
 func (ex *Exec) sleep(d *Term) {
+	if ex.clockExact {
+		// exact clock: a sleep advances the clock by exactly its (concrete) duration
+		if !d.IsConst() {
+			ex.unsupported("exact clock: time.Sleep of a symbolic duration")
+		}
+		if ms := sext64(d.val, 64) / 1000000; ms > 0 {
+			ex.clock = ex.tc.Bin(OAdd, ex.clock, ex.tc.Const(64, uint64(ms)))
+		}
+		ex.event("sleep")
+		return
+	}
 	if ex.sleepWeak {
 		ex.event("sleep")
 		return
